@@ -111,8 +111,12 @@ Definition rstep (sk : skeleton) (st : rstate) (l : rlabel) : option rstate :=
       end
   | RInCancel q =>
       match recv st with
-      | RIdle => if q <? 0 then None   (* environment hypothesis: cancellations name call seqnos *)
-                 else Some (with_hist st (handlers st) (tasks st) (RCancel q) [AFeed (mkFI KCancel q (-1) true) true])
+      | RIdle =>
+          (* the source drops a cancellation frame with a negative seqno (notification handlers are filed under
+             negative keys); without that guard it reaches the task loop *)
+          if (q <? 0) && sk_cancel_negative_ignored sk
+          then Some (with_hist st (handlers st) (tasks st) RIdle [AFeed (mkFI KCancel q (-1) true) true])   (* ignored *)
+          else Some (with_hist st (handlers st) (tasks st) (RCancel q) [AFeed (mkFI KCancel q (-1) true) true])
       | _ => None
       end
   | RBeginRv =>
